@@ -60,6 +60,11 @@ posix_spawn(pid_t *pid, const char *path, const posix_spawn_file_actions_t *fa,
 	if (real == NULL) {
 		real = dlsym(RTLD_NEXT, "posix_spawn");
 	}
+	if (rec != NULL && !strcmp(path, "/usr/sbin/sendmail") && getenv("E3_MAILSPAWNFAIL") != NULL) {
+		/* no mailer on this box: like the real thing, the failure is the return value and *pid stays untouched */
+		shim_log("spawn-mail rc=%d pid=0 envp=%s\n", ENOENT, envp ? "set" : "null");
+		return ENOENT;
+	}
 	if (rec != NULL && !strcmp(path, "/usr/sbin/sendmail")) {
 		const char *mf = getenv("E3_MAILFILE");
 		char *nargv[32];
